@@ -18,6 +18,7 @@ Verdict(v) ==
        THEN "supports_* flags are not the documented function of the parsed capabilities: " \o (CHOOSE f \in DOMAIN DeriveFlags(v.whole) : FlagsOf(v.attrsWhole)[f] # DeriveFlags(v.whole)[f])
   ELSE IF SetsOf(v.attrsWhole) # DeriveSets(v.whole)
        THEN "supported modes / speeds are not the documented function of the parsed capabilities: " \o (CHOOSE f \in DOMAIN DeriveSets(v.whole) : SetsOf(v.attrsWhole)[f] # DeriveSets(v.whole)[f])
+  ELSE IF TempsOf(v.attrsWhole) # DeriveTemps(v.whole) THEN "setpoint limits are not the documented function of the parsed capabilities"
   ELSE IF BadSplit(v.splits, v.attrsWhole, 1) # 0
        THEN "split delivery differs from single response at split point " \o ToString(v.splits[BadSplit(v.splits, v.attrsWhole, 1)].at)
   ELSE "ok"
